@@ -7,6 +7,27 @@ import re
 
 HERE = os.path.dirname(os.path.dirname(os.path.abspath(__file__)))
 NEEDS = {
+    'C08-1': ('datasource_t::resize storage-width thresholds use < while visit() uses <=', 'a single-label feature with exactly 256 classes plus another 8-bit-stored feature at the colliding row'),
+    'C08-2': ('pairwise_product_t::process multiplies in the sources\' storage types before the cast', 'unsigned x negative, int32 products above 32 bits, or a float32 source'),
+    'C08-3': ('generator_t::drop / shuffle set the flag byte with |= while the readers compare the whole byte', 'shuffle(f); drop(f) (or the reverse) on the same feature without a reset in between'),
+    'C09-1': ('gboost scale function normalises by the cluster\'s sample count instead of the iterator\'s', 'an iterator over a strict subset of the dataset (the train split)'),
+    'C09-2': ('linear function normalises the data term by the dataset\'s sample count', 'a flatten iterator over a strict subset of the samples'),
+    'C09-3': ('targets_iterator_t::targets skips the scaling wrapper in the uncached branch', 'targets not cached, a scaling other than none, a regression target'),
+    'C10-1': ('stump prediction uses value > threshold ? hi : lo', 'an unseen sample whose feature value lies exactly on the fitted mid-point threshold'),
+    'C10-2': ('table try_merge guard compares only hash2tables().dims()', 'two k-split tables on one feature with equal hashes and group counts but different clusterings'),
+    'C10-3': ('stump do_fit compares (value, sample) pairs instead of values', 'tied feature values among different fitting samples with residuals varying inside the tie'),
+    'C12-1': ('weighted sampling clamps every weight to max(weight, epsilon0)', 'non-zero weights of magnitude ~1e-12 or below together with exactly-zero weights'),
+    'C12-2': ('std::sample replaces copy + shuffle + slice + sort in sample_without_replacement', 'an input index list that is not in increasing order'),
+    'C12-3': ('k-fold chunk size computed with the rounding division idiv', 'folds >= 6 and fewer than ~3.5 x folds samples (27 of the 374 pairs of the stated domain)'),
+    'C13-1': ('coarse-phase loop condition rewritten as an unsigned remaining budget', 'a small tuner::max_evals with large grids so that the step count jumps over max_evals/2'),
+    'C13-2': ('optimum_trial scans from trial 1', 'the best mean validation error attained by the first trial'),
+    'C13-3': ('evaluate rejects only NaN instead of every non-finite value', 'a callback returning +-inf with the local-search tuner'),
+    'C14-1': ('variance clamp rewritten as max(sqrt(variance), 0.0)', 'a constant column with an inexact value (rounded variance slightly negative), standard scaling'),
+    'C14-2': ('the disable-scaling block of categorical columns moved into the N > 1 branch', 'a categorical feature given for exactly one sample'),
+    'C14-3': ('sample-count guard N > 1 became N > 2', 'a column with exactly two finite values'),
+    'C15-1': ('nano::read(istream, string) returns early for zero-length strings, skipping the resize', 'an empty string in the stream read into a re-used object that already holds a non-empty string'),
+    'C15-2': ('content hash of floating-point tensors covers only the low 4 bytes of each element', 'a double tensor and a corruption in bytes 4..7 of an element'),
+    'C15-3': ('gboost_model_t::read drops the trailing prototypes field', 'inspecting prototypes() / re-saving the loaded model, or truncating inside the stream\'s tail'),
     'C01-1': ('gradient_test normalised by 1+|f| instead of max(1,|f|)', 'a returned point whose function value is of order one (factor (1+|f|)/max(1,|f|) up to 2)'),
     'C01-2': ('&& -> || in the status guard of solver_t::done', 'a line-search failure at a valid state whose gradient test is not satisfied'),
     'C01-3': ('solver_status enumerators reordered so that the value-initialised status is converged', 'a run that ends without the terminal branch of done(): budget exhausted, or fallback to the previous state'),
